@@ -56,11 +56,27 @@ type Req struct {
 	// whether the <version> element is omitted (a direct dependency whose version comes from dependencyManagement).
 	Origin    string `json:"origin,omitempty"`
 	NoVersion bool   `json:"noVersion,omitempty"`
+	// Maven only: the version is written as ${Prop} but the property is NOT defined in this pom (it is inherited
+	// from the local parent); Req still holds the value for documentation.
+	PropInherited bool `json:"propInherited,omitempty"`
 	// npm only: the dependency is declared under this alias: "<Alias>": "npm:<Name>@<Req>".
 	Alias string `json:"alias,omitempty"`
 	// Maven only: <classifier>/<type> of the dependency, so that one package can legally be required twice.
 	Classifier string `json:"classifier,omitempty"`
 	Type       string `json:"type,omitempty"`
+}
+
+// Prop is a Maven property.
+type Prop struct {
+	Name  string `json:"name"`
+	Value string `json:"value"`
+}
+
+// ParentPom is a local parent pom: extra properties plus requirements (a requirement with Prop set defines that
+// property in the parent, like in the child).
+type ParentPom struct {
+	Props []Prop `json:"props,omitempty"`
+	Reqs  []Req  `json:"reqs,omitempty"`
 }
 
 // Vuln is one OSV record affecting a single package in [Introduced, Fixed) (no Fixed = forever).
@@ -94,6 +110,9 @@ type Case struct {
 	// Names optionally maps short package names to the registry names used everywhere (schema, manifest, OSV
 	// records, upgrade config), e.g. d1 -> "JSONStream" / "com.zaxxer:HikariCP"; unmapped names use FullName.
 	Names map[string]string `json:"names,omitempty"`
+	// Parent, if set (Maven only), is a local parent pom written next to the manifest as parent.xml and referenced
+	// by <parent><relativePath>parent.xml</relativePath>; its properties and requirements are inherited.
+	Parent *ParentPom `json:"parent,omitempty"`
 	// CfgRoute selects how UpgradeConfig builds the upgrade.Config: "" = Config.Set / SetDefault,
 	// "strings" = upgrade.NewConfigFromStrings (the route a command line takes).
 	CfgRoute string `json:"cfgRoute,omitempty"`
@@ -201,10 +220,13 @@ func (c *Case) packageJSON() []byte {
 func (c *Case) pomXML() []byte {
 	var b strings.Builder
 	b.WriteString("<project>\n  <modelVersion>4.0.0</modelVersion>\n  <groupId>root</groupId>\n  <artifactId>root</artifactId>\n  <version>1.0.0</version>\n")
+	if c.Parent != nil {
+		b.WriteString("  <parent>\n    <groupId>root</groupId>\n    <artifactId>parent</artifactId>\n    <version>1.0.0</version>\n    <relativePath>./parent.xml</relativePath>\n  </parent>\n")
+	}
 	seen := map[string]bool{}
 	var props []string
 	for _, r := range c.Manifest {
-		if r.Prop != "" && !seen[r.Prop] && !r.NoVersion {
+		if r.Prop != "" && !seen[r.Prop] && !r.NoVersion && !r.PropInherited {
 			seen[r.Prop] = true
 			props = append(props, fmt.Sprintf("    <%s>%s</%s>\n", r.Prop, r.Req, r.Prop))
 		}
@@ -247,15 +269,63 @@ func (c *Case) pomXML() []byte {
 		b.WriteString("  <dependencyManagement>\n    <dependencies>\n" + m + "    </dependencies>\n  </dependencyManagement>\n")
 	}
 	pd, pm := section(OriginProfile, "        "), section(OriginProfileManagement, "          ")
-	if pd != "" || pm != "" {
-		b.WriteString("  <profiles>\n    <profile>\n      <id>p1</id>\n      <activation>\n        <activeByDefault>true</activeByDefault>\n      </activation>\n")
-		if pm != "" {
-			b.WriteString("      <dependencyManagement>\n        <dependencies>\n" + pm + "        </dependencies>\n      </dependencyManagement>\n")
+	pi := section(OriginProfileInactive, "        ")
+	if pd != "" || pm != "" || pi != "" {
+		b.WriteString("  <profiles>\n")
+		if pd != "" || pm != "" {
+			b.WriteString("    <profile>\n      <id>p1</id>\n      <activation>\n        <activeByDefault>true</activeByDefault>\n      </activation>\n")
+			if pm != "" {
+				b.WriteString("      <dependencyManagement>\n        <dependencies>\n" + pm + "        </dependencies>\n      </dependencyManagement>\n")
+			}
+			if pd != "" {
+				b.WriteString("      <dependencies>\n" + pd + "      </dependencies>\n")
+			}
+			b.WriteString("    </profile>\n")
 		}
-		if pd != "" {
-			b.WriteString("      <dependencies>\n" + pd + "      </dependencies>\n")
+		if pi != "" {
+			b.WriteString("    <profile>\n      <id>p2</id>\n      <dependencies>\n" + pi + "      </dependencies>\n    </profile>\n")
 		}
-		b.WriteString("    </profile>\n  </profiles>\n")
+		b.WriteString("  </profiles>\n")
+	}
+	b.WriteString("</project>\n")
+	return []byte(b.String())
+}
+
+// ParentBytes renders the local parent pom (nil if the case has none).
+func (c *Case) ParentBytes() []byte {
+	if c.Parent == nil {
+		return nil
+	}
+	var b strings.Builder
+	b.WriteString("<project>\n  <modelVersion>4.0.0</modelVersion>\n  <groupId>root</groupId>\n  <artifactId>parent</artifactId>\n  <version>1.0.0</version>\n  <packaging>pom</packaging>\n")
+	var props []string
+	seen := map[string]bool{}
+	for _, p := range c.Parent.Props {
+		if !seen[p.Name] {
+			seen[p.Name] = true
+			props = append(props, fmt.Sprintf("    <%s>%s</%s>\n", p.Name, p.Value, p.Name))
+		}
+	}
+	for _, r := range c.Parent.Reqs {
+		if r.Prop != "" && !seen[r.Prop] {
+			seen[r.Prop] = true
+			props = append(props, fmt.Sprintf("    <%s>%s</%s>\n", r.Prop, r.Req, r.Prop))
+		}
+	}
+	if len(props) > 0 {
+		b.WriteString("  <properties>\n" + strings.Join(props, "") + "  </properties>\n")
+	}
+	if len(c.Parent.Reqs) > 0 {
+		b.WriteString("  <dependencies>\n")
+		for _, r := range c.Parent.Reqs {
+			grp, art, _ := strings.Cut(c.Full(r.Name), ":")
+			ver := r.Req
+			if r.Prop != "" {
+				ver = "${" + r.Prop + "}"
+			}
+			b.WriteString("    <dependency>\n      <groupId>" + grp + "</groupId>\n      <artifactId>" + art + "</artifactId>\n      <version>" + ver + "</version>\n    </dependency>\n")
+		}
+		b.WriteString("  </dependencies>\n")
 	}
 	b.WriteString("</project>\n")
 	return []byte(b.String())
@@ -266,6 +336,7 @@ const (
 	OriginManagement        = "management"         // <dependencyManagement>
 	OriginProfile           = "profile"            // <dependencies> of a profile that is active by default
 	OriginProfileManagement = "profile-management" // <dependencyManagement> of that profile
+	OriginProfileInactive   = "profile-inactive"   // <dependencies> of a second profile that is not active
 )
 
 // CVSS vectors for the severity option.
@@ -459,4 +530,37 @@ func DiffLevel(a, b V) int {
 // SortVersions sorts version strings ascending in the reference order.
 func SortVersions(vs []string) {
 	sort.SliceStable(vs, func(i, j int) bool { c, _ := Cmp(vs[i], vs[j]); return c < 0 })
+}
+
+// ParseVLoose parses the Maven spellings of a ladder version that order EQUAL to it: missing or extra trailing
+// ".0" components ("1.0", "1.0.0.0") and the release qualifiers "-ga", ".ga", "-final", ".Final", "-release"
+// (case-insensitive), on top of what ParseV accepts.
+func ParseVLoose(s string) (V, bool) {
+	if v, ok := ParseV(s); ok {
+		return v, true
+	}
+	low := strings.ToLower(s)
+	for _, q := range []string{"-ga", ".ga", "-final", ".final", "-release", ".release"} {
+		if strings.HasSuffix(low, q) {
+			s = s[:len(s)-len(q)]
+			break
+		}
+	}
+	parts := strings.Split(s, ".")
+	if len(parts) == 0 || len(parts) > 5 {
+		return V{}, false
+	}
+	v := V{Pre: -1}
+	for i, p := range parts {
+		n, err := strconv.Atoi(p)
+		if err != nil || n < 0 {
+			return V{}, false
+		}
+		if i < 3 {
+			v.N[i] = n
+		} else if n != 0 {
+			return V{}, false
+		}
+	}
+	return v, true
 }
